@@ -21,6 +21,9 @@ SWEEP_TRUSTED = {
 CLAUSE = CLAUSE + (" (RF-DEP, path-sensitive zero-ness valuations) in demux_ts_packet every copy that may bring ts_pes_todo to zero "
                    "(PES packet complete) is followed by the header examination or an explicit discard before the collecting cursor is "
                    "rewound for the next PES packet - also when the whole TS packet was already in the synchronisation buffer.")
+CLAUSE = CLAUSE + (" Every advance of the PES collecting cursor ts_pes_bp is paired, in the same step, with the countdown of ts_pes_todo by the same amount.")
+CLAUSE = CLAUSE + (" The PES header validation reads no byte beyond the look-ahead the wrap-around buffer guarantees (else "
+                   "its verdict depends on where the input was cut).")
 NOT_DECIDED = ("partition invariance as such (that feeding byte by byte yields identical frames), 'all but the first frame after "
                "damage are delivered', PES/TS header field semantics.")
 
@@ -60,6 +63,11 @@ def run(ctx, run):
     _skip_before_lookahead(ctx, run, P.need("demux_pes_packet", UNIT))
     _unit_lengths(ctx, run, P.need("extract_data_units", UNIT))
     _complete_packet_examined(ctx, run, P.need("demux_ts_packet", UNIT))
+    _cursor_and_count_together(ctx, run, P.need("demux_ts_packet", UNIT))
+    # partition invariance: the header validation looks only at bytes the wrap-around buffer has been
+    # asked to provide (rule shared with C06)
+    from . import C06
+    C06._header_lookahead(ctx, run)
     from .. import sweep
     sweep.run(ctx, run, [UNIT], SWEEP_TRUSTED, 20, 1)
 
@@ -636,3 +644,35 @@ def _complete_packet_examined(ctx, run, f):
         run.holds("RF-DEP", key, "%d stores may complete the collected PES packet; on every path (zero-ness valuations of ts_pes_todo, "
                   "ts_wrap.consume and the locals %s) the header examination or an explicit discard comes before the cursor is "
                   "rewound for the next packet" % (len(spec.n_dec), sorted(an.locals)), "%s:%d" % (f.file, f.line))
+
+
+def _cursor_and_count_together(ctx, run, f):
+    """RF-CORR: while a PES packet is collected from TS packets, ts_pes_bp (where the next bytes
+    go) and ts_pes_todo (how many are still missing) describe the same progress: every advance
+    `ts_pes_bp += n` is paired, in the same basic block, with `ts_pes_todo -= n` on the same n.
+    An advance without the countdown makes the packet look incomplete for ever: bytes of the
+    following packets are appended until the length mismatch drops both."""
+    run.touch(f)
+    n = 0
+    for bid, b in f.blocks.items():
+        adv, dec = [], []
+        for i in flow.events(f, bid):
+            for lhs, var, op, rhs in flow.stores(f, i):
+                if lhs is None or rhs is None:
+                    continue
+                p = ex.pretty(f, lhs)
+                if p.endswith("->ts_pes_bp") and op == "+=":
+                    adv.append((i, ex.pretty(f, rhs)))
+                if p.endswith("->ts_pes_todo") and op == "-=":
+                    dec.append((i, ex.pretty(f, rhs)))
+        for i, amt in adv:
+            n += 1
+            key = "RF-CORR:demux_ts_packet:cursor-and-count@%d" % n
+            if any(a2 == amt for _, a2 in dec):
+                run.holds("RF-CORR", key, "`%s` is paired with ts_pes_todo -= %s" % (ex.pretty(f, i)[:40], amt), ex.loc(f, i))
+            else:
+                run.violation("RF-CORR", key, "`%s` advances the PES collecting cursor by %s bytes but ts_pes_todo is not reduced by "
+                              "the same amount in that step: the packet never counts as complete, the bytes of the next packets are "
+                              "appended behind it and both packets are lost - only "
+                              "when a TS packet's payload is split across two feed() calls" % (ex.pretty(f, i)[:40], amt), ex.loc(f, i))
+    run.floor("advances of the PES collecting cursor", n, 4)
